@@ -137,14 +137,20 @@ def _ren(x, m, spec_names, keys=True):
     return x
 
 
+# names with a fixed meaning in clauses about the function as a whole (a local of the same name is only meant inside
+# loop specifications, where no return value / yielded value exists yet)
+RESERVED = ("result", "out", "yielded", "call_args", "call_self")
+
+
 def renamed_case(case, m, spec_names=()):
     """a copy of the contract case whose specification texts follow the renaming m of the function's locals"""
     c = copy.copy(case)
+    m_top = {k: v for k, v in m.items() if k not in RESERVED}
     for f in SPEC_FIELDS:
         if hasattr(c, f) and getattr(c, f):
             v = getattr(c, f)
             # raises / exc_ensures / at_call are keyed by exception class / method name: keys are not locals
-            setattr(c, f, _ren(v, m, spec_names, keys=f in ("abstract", "local_types")))
+            setattr(c, f, _ren(v, m_top, spec_names, keys=f in ("abstract", "local_types")))
     loops = {}
     for k, ls in (c.loops or {}).items():
         l2 = copy.copy(ls)
